@@ -27,6 +27,37 @@ CLAIMED = {
             "Trusted: TLC, the Go concretiser/tokeniser, the reading of Fetch + PNA draft in Browser.tla. Sampled, not exhaustive, "
             "on the concrete side (30k cells quick / 400k thorough).",
             "DESIGN.md 4.6, 7/C02"),
+    "C03": ("model_checking",
+            "TLC model checking of Cors.tla (HeadersWellFormed, twins incl. the F4 defect) + TLC trace validation of real responses to junk/structured requests with a strict origin recogniser (OriginSyntax.tla) and Origins!Allowed",
+            "Model level: the C03 conjuncts are invariants of Respond over every abstract configuration x request (absent / zero / multi-valued "
+            "/ junk headers); twins (echoing a non-first Origin value; the bracket-stripping defect F4) must be rejected. Code level: fixed "
+            "configuration kinds + seeded random ones x both debug modes x junk and structured requests are served by the real "
+            "middleware and every recorded response is judged by TraceServe!C03ok in TLC on the raw Origin / ACAO bytes.",
+            "Trusted: TLC, the Go response projection (abbreviation, tokenisation, byte codes). Known finding F4 is classified per event by "
+            "TraceServe!C03isF4 and reported as KNOWN-FINDING; any other offending event is a VIOLATION.",
+            "DESIGN.md 4.1, 4.6, 7/C03, 8"),
+    "C10": ("model_checking",
+            "TLC model checking of VarySufficient over all ordered request pairs of Cors.tla + TLC trace validation: all ordered pairs of real (request, response) blocks",
+            "Model level: VarySufficient / VaryPreserved over all ordered pairs of the abstract request universe (thorough; quick checks VaryPreserved "
+            "and that the F5 twin is rejected). Code level: per (configuration, debug, pre-set Vary) block the structured request universe is served "
+            "by the real middleware and TLC quantifies over all ordered pairs of the block using the REAL Vary value of the first response.",
+            "Trusted: TLC, Go projection. 'agree' = equal field-line sequences (absent == zero-length). Constant inner handler within a block.",
+            "DESIGN.md 4.6, 7/C10"),
+    "C11": ("model_checking",
+            "TLC model checking of DispatchRule/OnlyDocumentedEdits on Cors.tla + TLC trace validation of spy-handler observations from the real middleware",
+            "Model level: handled <=> configured and preflight-shaped; non-handled responses only append to Vary and set ACAO/ACAC/ACEH. Code level: "
+            "configuration kinds incl. both passthrough forms x request universe (every combination of method and presence/emptiness/"
+            "zero-length of Origin and ACRM) x (pre-set headers, inner handler) variants; TLC judges invocation count, request/writer identity, "
+            "headers on handler entry/exit, final status/body/headers.",
+            "Trusted: TLC, the recorder/spy (pointer identity, header snapshots).",
+            "DESIGN.md 4.6, 7/C11"),
+    "C16": ("model_checking",
+            "TLC model checking of NoDisclosure on Cors.tla (twin: buffer copied on failure) + TLC trace validation of real preflight responses with debug off",
+            "Model level: NoDisclosure over every abstract configuration x preflight. Code level: every preflight served with debug off (junk and "
+            "structured universes, fixed + random configurations) is judged by TraceServe!C16ok: failing => no Access-Control-* header and one status "
+            "per block; succeeding => only *, true, max-age and request-supplied tokens.",
+            "Trusted: TLC, Go tokenisation of ACRM/ACRH/ACAM/ACAH. 'succeeds' = ok status and ACAO present.",
+            "DESIGN.md 4.6, 7/C16"),
 }
 
 NOT_YET = "check not built yet in this round (planned, see DESIGN.md section 7)"
